@@ -124,6 +124,9 @@ func summarize(ops []*Op, u *Universe) []string {
 
 func sizes(cfg CheckConfig) (histories, blocks, txs int) {
 	if cfg.Tier == "thorough" {
+		if cfg.Prop == "C13" || cfg.Prop == "C10" {
+			return 800, 14, 8
+		}
 		return 3000, 14, 8
 	}
 	return 250, 10, 6
